@@ -47,6 +47,13 @@ def check(camp, name, fields, body_lines, glue, mids):
     if n != 0:
         camp.fail("C13|wellformed|%s" % glue, "well-formed header reported INVALID_HEADER %d time(s); fields %r" % (n, fields),
                   {"name": name, "text": text, "expect": 0})
+    # a file that holds nothing but its (well-formed) header: still no INVALID_HEADER, and nothing of it may survive into the next file
+    stub = "\n".join(hdr) + ("\n" if len(fields["login"]) % 2 else "")
+    r, n = count_ih(name, stub)
+    camp.case(stub, True)
+    camp.count("wellformed:header-only")
+    if n != 0:
+        camp.fail("C13|wellformed|header-only", "a file holding only a well-formed header reported INVALID_HEADER %d time(s)" % n, {"name": name, "text": stub, "expect": 0})
     for mid in mids:
         new = header42.mutate(hdr, mid, body_first_line="int\tft_before(void);")
         g = "blank" if glue == "comment-glued" and mid in ("H1",) else glue
